@@ -588,6 +588,70 @@ func (c *Ctx) c14Routes() {
 		})
 	}
 	r.Floor("C14/ROUTES/client", "client request sites", nOps, 6)
+	// encoding discipline: every operation passes do() a uri whose variable segments are
+	// already percent-encoded (url.QueryEscape); do() must hand it to an API that takes an
+	// ENCODED path (URL.JoinPath, URL.Parse, url.Parse) and never to one that takes a DECODED
+	// path (URL.Path field, path.Join), which would escape the '%' a second time
+	uriP := do.Params[3]
+	var encProbs []string
+	accepted := 0
+	seenV := map[ssa.Value]bool{uriP: true}
+	work := []ssa.Value{uriP}
+	for len(work) > 0 {
+		v := work[len(work)-1]
+		work = work[:len(work)-1]
+		if v.Referrers() == nil {
+			continue
+		}
+		for _, ref := range *v.Referrers() {
+			switch x := ref.(type) {
+			case *ssa.Call:
+				name := eng.CalleeName(x.Common())
+				switch name {
+				case "(*net/url.URL).JoinPath", "(*net/url.URL).Parse", "net/url.Parse", "net/url.ParseRequestURI":
+					accepted++
+				case "path.Join", "path/filepath.Join", "net/url.PathEscape", "net/url.QueryEscape":
+					encProbs = append(encProbs, "the already-encoded uri is passed to "+name+" at "+p.InstrPos(x)+", which treats it as a decoded path")
+				case "fmt.Errorf", "fmt.Sprintf":
+				default:
+					if !seenV[x] {
+						seenV[x] = true
+						work = append(work, x)
+					}
+				}
+			case *ssa.Store:
+				if fa, ok := x.Addr.(*ssa.FieldAddr); ok {
+					if f := eng.FieldOfAddr(fa); f != nil && f.Name() == "Path" && f.Pkg() != nil && f.Pkg().Path() == "net/url" {
+						encProbs = append(encProbs, "the already-encoded uri is stored into url.URL.Path at "+p.InstrPos(x)+" (a decoded field): '%' is escaped again on the wire, so a mailbox name with URL-significant characters addresses a different mailbox")
+					}
+				}
+				if ia, ok := x.Addr.(*ssa.IndexAddr); ok {
+					if al, ok := ia.X.(*ssa.Alloc); ok {
+						for _, r3 := range *al.Referrers() {
+							if sl, ok := r3.(*ssa.Slice); ok && !seenV[sl] {
+								seenV[sl] = true
+								work = append(work, sl)
+							}
+						}
+					}
+				}
+			case *ssa.MakeInterface, *ssa.Phi, *ssa.Slice, *ssa.BinOp:
+				nv := ref.(ssa.Value)
+				if !seenV[nv] {
+					seenV[nv] = true
+					work = append(work, nv)
+				}
+			}
+		}
+	}
+	if accepted == 0 && len(encProbs) == 0 {
+		encProbs = append(encProbs, "do() does not hand the uri to URL.JoinPath / URL.Parse: the rule cannot tell how the encoded segments reach the wire")
+	}
+	if len(encProbs) > 0 {
+		r.Bad("C14/ROUTES/client", "url-encoding@"+shortFn(do), p.Pos(do.Pos()), "%s", strings.Join(encProbs, "; "))
+	} else {
+		r.Ok("C14/ROUTES/client", "url-encoding@"+shortFn(do), p.Pos(do.Pos()), "the encoded uri reaches the request only through an API that takes an encoded path (%d site)", accepted)
+	}
 }
 
 // constBytes returns the literal of a []byte("...") conversion.
